@@ -212,6 +212,29 @@ def main(tier):
                 cid = "l%d_%d_%s" % (ln, fk, "lf" if nl == "\n" else "crlf")
                 cases.append({"id": cid, "files": {"main.jst": b64(text)}, "root": "main.jst"})
                 files_of[cid] = {"main.jst": text}
+    # faults whose directive is known: the diagnostic lies in the line(s) of THAT directive (marker "<<" in the texts below)
+    sited = {
+        "url_tags_after_method": {"main.jst": "JSIGHT 0.3\nURL /zl\n  GET\n  (\n    200 any\n  )\n  Tags @zundeclared<<\n"},
+        "url_tags_after_two_methods": {"main.jst": "JSIGHT 0.3\nTAG @zok\nURL /zl\n  GET\n  (\n    Tags @zok\n    200 any\n  )\n  POST\n  (\n    200 any\n  )\n  Tags @zok @zundeclared<<\n"},
+        "method_tags_second_of_three": {"main.jst": "JSIGHT 0.3\nTAG @za\nTAG @zc\nGET /zl\n  Tags @za @zundeclared @zc<<\n  200 any\n"},
+        "rpc_method_tags": {"main.jst": "JSIGHT 0.3\nURL /zr\n  Protocol json-rpc-2.0\n  Method zm\n    Tags @zundeclared<<\n    Result\n    {}\n"},
+        "tags_after_included_method": {"main.jst": "JSIGHT 0.3\nURL /zl\nINCLUDE methods.jst\nPOST /zother\n  Tags @zundeclared<<\n  200 any\n", "methods.jst": "  GET\n    200 any\n"},
+        "url_tags_before_included_methods": {"main.jst": "JSIGHT 0.3\nURL /zl\n  Tags @zundeclared<<\nINCLUDE methods.jst\n", "methods.jst": "  GET\n    200 any\n"},
+        "tags_in_included_file": {"main.jst": "JSIGHT 0.3\nGET /zfirst\n  200 any\nINCLUDE sub/m.jst\n", "sub/m.jst": "PUT /zl\n  Tags @zundeclared<<\n  200 any\n"},
+    }
+    sites = {}
+    for nm, ff in sited.items():
+        clean, site = {}, None
+        for f, t in ff.items():
+            if "<<" in t:
+                k = t.index("<<")
+                ls = t.rfind("\n", 0, k) + 1
+                site = (f, ls, k)
+            clean[f] = t.replace("<<", "")
+        cid = "s_" + nm
+        cases.append({"id": cid, "files": {k: b64(v) for k, v in clean.items()}, "root": "main.jst"})
+        files_of[cid] = clean
+        sites[cid] = site
     # an INCLUDE of a file that exists but cannot be read, in the root file and in an included file: the diagnostic is at
     # that INCLUDE and its chain is the chain of the file the INCLUDE stands in
     unread = {
@@ -258,6 +281,11 @@ def main(tier):
                 sig["what"] = "trace"
                 sig["detail"] = tr[1:tr.index("]")] if tr.startswith("[") else ""
                 sig["form"] = cid.split("_", 1)[1] if "_" in cid else ""
+        if not bad and cid in sites:
+            f, lo, hi = sites[cid]
+            if e["file"] != f or not (lo <= e["index"] <= hi):
+                bad = "the directive at fault stands in %s bytes %d..%d, the diagnostic is at %s byte %d (line %d, quote %r)" % (f, lo, hi, e["file"], e["index"], e["line"], e["quote"])
+                sig["what"] = "outside the directive at fault"
         if not bad and cid.startswith("i"):
             tgt = files_of[cid + "#target"]
             if e["file"] != tgt:
